@@ -1,5 +1,7 @@
 import JunoModel.Common.Proto
 import JunoModel.C01.Model
+import JunoModel.C01.ModelState
+import JunoModel.C01.ModelLegacy
 /-!
 Line-protocol driver for the C01 models (`lake build c01drv`).
 
@@ -9,6 +11,14 @@ Requests (one per line, answers one line each):
   hash <id>                         Trie.Hash() (caches hashes)                -> <term>
   get  <id> <keyhex>                Trie.Get(key)                              -> <term>
   spec <height> <ped|pos> k:v ...   Spec.root of the given map (height <= 12)  -> <term>
+  lnew <id> <height> <ped|pos>      fresh legacy (core/trie) model in slot <id>    -> ok
+  lput <id> <keyhex> <valhex>       Trie.Put(key, value)                           -> ok | err:put
+  lhash <id>                        Trie.Hash() (rehashes dirty paths)             -> <term> | err:hash
+  lreopen <id>                      drop the object, open a new one on the storage -> ok
+  snew <id> <purge 0|1>             fresh state model (purge = empty system contracts lose their leaf) -> ok
+  sblock <id> <pre014 0|1> item...  State.Update + Commitment; items in application order:
+        D:<class>:<casm> M:<class>:<casm> P:<addr>:<class> R:<addr>:<class> N:<addr>:<nonce>
+        S:<addr>:<key>=<val>,<key>=<val>...                                    -> <term> | rejected
 Terms are printed in prefix form: f<hex> | P(a,b) | S(a,b) | T(a,b,c) | A(t,<hex>).
 -/
 open Juno.Proto Juno.C01
@@ -36,6 +46,32 @@ structure T2 where
 
 structure St where
   t2 : List (Nat × T2) := []
+  states : List (Nat × (Bool × State.St)) := []
+  legacy : List (Nat × Legacy.Trie) := []
+
+def parsePair (a b : String) : Option (Path × HTerm) := do
+  let x ← hexToNat? a
+  let y ← hexToNat? b
+  if x ≥ 2 ^ 251 then none else pure (natToPath 251 x, .felt y)
+
+def parseStorage (s : String) : Option (List (Path × HTerm)) :=
+  (s.splitOn ",").mapM (fun kv => match kv.splitOn "=" with
+    | [k, v] => parsePair k v
+    | _ => none)
+
+def addItem (d : State.Diff) (item : String) : Option State.Diff :=
+  match item.splitOn ":" with
+  | ["D", a, b] => do let e ← parsePair a b; pure { d with declared := d.declared ++ [e] }
+  | ["M", a, b] => do let e ← parsePair a b; pure { d with migrated := d.migrated ++ [e] }
+  | ["P", a, b] => do let e ← parsePair a b; pure { d with deployed := d.deployed ++ [e] }
+  | ["R", a, b] => do let e ← parsePair a b; pure { d with replaced := d.replaced ++ [e] }
+  | ["N", a, b] => do let e ← parsePair a b; pure { d with nonces := d.nonces ++ [e] }
+  | ["S", a, kvs] => do
+    let x ← hexToNat? a
+    if x ≥ 2 ^ 251 then none
+    let st ← parseStorage kvs
+    pure { d with storage := d.storage ++ [(natToPath 251 x, st)] }
+  | _ => none
 
 def St.getT2 (s : St) (id : Nat) : Option T2 := (s.t2.find? (·.1 == id)).map (·.2)
 def St.setT2 (s : St) (id : Nat) (t : T2) : St :=
@@ -87,6 +123,59 @@ def step (s : St) (line : String) : St × String :=
         | none => .felt 0
       (s, termStr (Spec.root k h m))
     | _, _, _ => (s, "bad-op")
+  | ["lnew", id, h, k] =>
+    match id.toNat?, h.toNat?, kindOf? k with
+    | some id, some h, some k =>
+      ({ s with legacy := (id, Legacy.Trie.empty h k) :: s.legacy.filter (·.1 != id) }, "ok")
+    | _, _, _ => (s, "bad-op")
+  | ["lput", id, key, val] =>
+    match id.toNat?, hexToNat? key, hexToNat? val with
+    | some id, some key, some val =>
+      match s.legacy.find? (·.1 == id) with
+      | some (_, t) =>
+        if key ≥ 2 ^ t.height then (s, "err:key-too-big") else
+        match Legacy.put t (natToPath t.height key) (.felt val) with
+        | some t' => ({ s with legacy := (id, t') :: s.legacy.filter (·.1 != id) }, "ok")
+        | none => (s, "err:put")
+      | none => (s, "bad-op")
+    | _, _, _ => (s, "bad-op")
+  | ["lhash", id] =>
+    match id.toNat? with
+    | some id =>
+      match s.legacy.find? (·.1 == id) with
+      | some (_, t) =>
+        match Legacy.hash t with
+        | some (h, t') => ({ s with legacy := (id, t') :: s.legacy.filter (·.1 != id) }, termStr h)
+        | none => (s, "err:hash")
+      | none => (s, "bad-op")
+    | none => (s, "bad-op")
+  | ["lreopen", id] =>
+    match id.toNat? with
+    | some id =>
+      match s.legacy.find? (·.1 == id) with
+      | some (_, t) => ({ s with legacy := (id, Legacy.reopen t) :: s.legacy.filter (·.1 != id) }, "ok")
+      | none => (s, "bad-op")
+    | none => (s, "bad-op")
+  | ["snew", id, purge] =>
+    match id.toNat?, purge.toNat? with
+    | some id, some p =>
+      ({ s with states := (id, (p != 0, State.St.empty)) :: s.states.filter (·.1 != id) }, "ok")
+    | _, _ => (s, "bad-op")
+  | "sblock" :: id :: pre :: items =>
+    match id.toNat?, pre.toNat? with
+    | some id, some pre =>
+      match s.states.find? (·.1 == id) with
+      | some (_, (purge, st)) =>
+        match items.foldlM addItem (⟨[], [], [], [], [], []⟩ : State.Diff) with
+        | some d =>
+          match State.update purge st d with
+          | some st' =>
+            ({ s with states := (id, (purge, st')) :: s.states.filter (·.1 != id) },
+              termStr (State.commitment (pre != 0) st'))
+          | none => (s, "rejected")
+        | none => (s, "bad-op")
+      | none => (s, "bad-op")
+    | _, _ => (s, "bad-op")
   | _ => (s, "bad-op")
 
 def main : IO Unit := loop step {}
